@@ -181,3 +181,41 @@ package j5convert
 //@   |   vrules(result0.Options) != nil && typeis(vrules(result0.Options).Type, *validate.FieldConstraints_Int64) && r64(result0.Options) != nil
 //@   |   && (exclMin(intField(node).Rules) ==> typeis(r64(result0.Options).GreaterThan, *validate.Int64Rules_Gt) && as(*validate.Int64Rules_Gt, r64(result0.Options).GreaterThan).Gt == *intField(node).Rules.Minimum)
 //@   |   && (!exclMin(intField(node).Rules) ==> typeis(r64(result0.Options).GreaterThan, *validate.Int64Rules_Gte) && as(*validate.Int64Rules_Gte, r64(result0.Options).GreaterThan).Gte == *intField(node).Rules.Minimum)
+
+// ---- service methods (C02) -------------------------------------------------------------------------
+// The HTTP rule of a method carries the resolved path with every ":name" segment rewritten to
+// "{snake(name)}" and every other segment unchanged; httpPath names that string: the "/"-join of the
+// rewritten segments of the "/"-split.
+//@ spec func segOut(s string) string = hasPrefix(s, ":") ? "{" + snake(s[1:]) + "}" : s
+//@ spec func httpPath(p string) string
+//@ axiom httpPath.def: forall a []string, p string {joinStr(a, "/"), splitN(p, "/")} ::
+//@   | len(a) == splitN(p, "/") && (forall i int :: 0 <= i && i < len(a) ==> a[i] == segOut(splitAt(p, "/", i))) ==> joinStr(a, "/") == httpPath(p)
+
+//@ spec func rulePath(r *annotations.HttpRule) string =
+//@   | typeis(r.Pattern, *annotations.HttpRule_Get) ? as(*annotations.HttpRule_Get, r.Pattern).Get :
+//@   | typeis(r.Pattern, *annotations.HttpRule_Post) ? as(*annotations.HttpRule_Post, r.Pattern).Post :
+//@   | typeis(r.Pattern, *annotations.HttpRule_Put) ? as(*annotations.HttpRule_Put, r.Pattern).Put :
+//@   | typeis(r.Pattern, *annotations.HttpRule_Delete) ? as(*annotations.HttpRule_Delete, r.Pattern).Delete :
+//@   | typeis(r.Pattern, *annotations.HttpRule_Patch) ? as(*annotations.HttpRule_Patch, r.Pattern).Patch : ""
+
+//@ func (*conversionVisitor).visitServiceMethodNode
+//@   requires fileOK(ww) && service != nil && service.desc != nil && node != nil && node.Schema != nil
+//@   requires forall i int :: 0 <= i && i < len(node.Schema.Request.Properties) ==> node.Schema.Request.Properties[i] != nil
+//@   let rule = extof(annotations.E_Http, service.desc.Method[old(len(service.desc.Method))].Options)
+//@   assert at return#2 path: rule != nil && rulePath(rule) == httpPath(node.ResolvedPath)
+//@   assert at return#2 verb: (node.Schema.HttpMethod == client_j5pb.HTTPMethod_GET <==> typeis(rule.Pattern, *annotations.HttpRule_Get))
+//@   |   && (node.Schema.HttpMethod == client_j5pb.HTTPMethod_POST <==> typeis(rule.Pattern, *annotations.HttpRule_Post))
+//@   |   && (node.Schema.HttpMethod == client_j5pb.HTTPMethod_PUT <==> typeis(rule.Pattern, *annotations.HttpRule_Put))
+//@   |   && (node.Schema.HttpMethod == client_j5pb.HTTPMethod_DELETE <==> typeis(rule.Pattern, *annotations.HttpRule_Delete))
+//@   |   && (node.Schema.HttpMethod == client_j5pb.HTTPMethod_PATCH <==> typeis(rule.Pattern, *annotations.HttpRule_Patch))
+//@   assert at return#2 body: rule.Body == (node.Schema.HttpMethod == client_j5pb.HTTPMethod_GET ? "" : "*")
+//@   assert at return#2 mlen: len(service.desc.Method) == old(len(service.desc.Method)) + 1
+//@   assert at return#2 mname: *service.desc.Method[old(len(service.desc.Method))].Name == node.Schema.Name
+//@   assert at return#2 mio: *service.desc.Method[old(len(service.desc.Method))].InputType == node.InputType
+//@   |   && *service.desc.Method[old(len(service.desc.Method))].OutputType == node.OutputType
+//@   assert at return#2 rule: rule != nil
+//@   assert at return#2 keep: forall i int :: 0 <= i && i < old(len(service.desc.Method)) ==> service.desc.Method[i] == old(service.desc.Method[i])
+//@   loop 0 invariant len(reqPathParts) == splitN(node.ResolvedPath, "/") && (len(reqPathParts) == 0 || fresh(reqPathParts))
+//@   loop 0 invariant forall j int {reqPathParts[j]} :: 0 <= j && j < $iter ==> reqPathParts[j] == segOut(splitAt(node.ResolvedPath, "/", j))
+//@   loop 0 invariant forall j int {reqPathParts[j]} :: $iter <= j && j < len(reqPathParts) ==> reqPathParts[j] == splitAt(node.ResolvedPath, "/", j)
+//@   loop 0 invariant node.ResolvedPath == old(node.ResolvedPath) && node.Schema == old(node.Schema)
